@@ -35,7 +35,7 @@ ENCODED = [
 BOUNDS = {
     "quick": "DDM/EDDM/STEPD: one step from an arbitrary state (unbounded history; STEPD window contents L<=2), integer labels vs "
              "opaque equality-only labels, with and without a container around them; ADWINAccuracy N<=6; LFR N<=3 with int / bool / "
-             "list / array encodings of 0/1 and concrete bool / numpy.bool_ / numpy.int8 / mixed labels under every 0/1 pattern; unused arguments: 14 detectors, N<=3; concrete label types (str, bool, float, multi-class int, numpy int / str) "
+             "list / array encodings of 0/1 and concrete bool / numpy.bool_ / numpy.int8 / mixed labels under every 0/1 pattern; unused arguments: 14 detectors, N<=3; concrete label types (str, bool, float, multi-class int, numpy int / str, a mixed-type alphabet, and the two labels in different containers) "
              "under every agreement pattern of length 6 for DDM, EDDM, STEPD, ADWINAccuracy",
     "thorough": "STEPD L<=3, ADWINAccuracy N<=8, LFR N<=4, unused arguments N<=4",
 }
